@@ -255,6 +255,51 @@ def runProc (np : Nat) : Proc → List PEvent → Proc × List Entry
     let r2 := runProc np r.1 evs
     (r2.1, r.2 ++ r2.2)
 
+/-! ## Kills inside the state write; atomicity of `_LeaseStateSerializer.save` as a parameter
+
+`save` writes the JSON to a sibling `.tmp` file and renames it over the state file
+(`fileutil.move_into_place`): `atomic = true`.  The variant that writes the state file in place is
+`atomic = false`.  A kill can hit the write after the truncating `open("wb")`, after a partial
+write, after the complete write (before the rename), or after the rename.  An empty / truncated
+JSON file is unreadable: `load_state` swallows the error and starts from the default state
+(`loadFile none`).  The harness observes which variant the code implements (does `save` write to the
+state path itself?) and runs the driver with that flag. -/
+
+inductive SavePoint where
+  | truncated | halfWritten | written | renamed
+  deriving DecidableEq, Repr
+
+/-- the state file after a kill at `pt` inside `save(new)` over the file `old` -/
+def fileAfterSaveKill (atomic : Bool) (old : Option FileState) (new : FileState) : SavePoint → Option FileState
+  | .truncated => if atomic then old else none
+  | .halfWritten => if atomic then old else none
+  | .written => if atomic then old else some new
+  | .renamed => some new
+
+inductive PEventA where
+  | ev (e : PEvent)
+  /-- a complete slice whose final `save_state` is hit by a kill at `pt`; then a new process -/
+  | saveKill (ls : Nat → List Nat) (o : List Bool) (pt : SavePoint)
+  /-- `stopService()` between slices whose `save_state` is hit by a kill at `pt`; then a new process -/
+  | stopKill (pt : SavePoint)
+
+def stepProcA (atomic : Bool) (np : Nat) (P : Proc) : PEventA → Proc × List Entry
+  | .ev e => stepProc np P e
+  | .saveKill ls o pt =>
+    let r := slice np ls P.mem o
+    let f := fileAfterSaveKill atomic P.file (saveState r.1.p) pt
+    ({ mem := loadFile f, file := f }, r.2)
+  | .stopKill pt =>
+    let f := fileAfterSaveKill atomic P.file (saveState P.mem.p) pt
+    ({ mem := loadFile f, file := f }, [])
+
+def runProcA (atomic : Bool) (np : Nat) : Proc → List PEventA → Proc × List Entry
+  | P, [] => (P, [])
+  | P, ev :: evs =>
+    let r := stepProcA atomic np P ev
+    let r2 := runProcA atomic np r.1 evs
+    (r2.1, r.2 ++ r2.2)
+
 /-! ## Vocabulary of the C27 statements -/
 
 /-- Bucket `b` of prefix `p` is present in the listing of every slice (complete or killed) that
